@@ -185,4 +185,9 @@ EXPLANATION = (
     'memory is per socket. A refreshed pointer produces no event: C04.CLASSIFY. Not decided: the metamorphic equivalence over whole '
     'histories [X].'
 )
+EXPLANATION_ADDENDUM = (
+    ' The QU exemption flag is set only while the question section is decoded (never from the record reader, where the same bit means cache-flush).'
+)
+EXPLANATION = EXPLANATION + EXPLANATION_ADDENDUM
+
 RULES = [guard]
